@@ -15,7 +15,7 @@ A bipartite vector `ψ ∈ C^{dA} ⊗ C^{dB}` has the amplitude matrix `A[a,b] =
 -/
 namespace Toq.C14
 open Toq.Entangle Matrix
-open scoped ComplexOrder
+open scoped ComplexOrder MatrixOrder Kronecker
 
 /-! ## mirrors of the reshapes -/
 
@@ -92,35 +92,7 @@ theorem schmidtRank_local_invariant {K : Type} [Field K] {m n : Nat} (U : Matrix
 theorem schmidtRank_planted (dA dB : Nat) (s : Nat → ℂ) :
     (planted dA dB s).rank = Fintype.card {a : Fin dA // a.val < dB ∧ s a.val ≠ 0} := by
   classical
-  rw [← Matrix.rank_self_mul_conjTranspose]
-  have h : planted dA dB s * (planted dA dB s)ᴴ
-      = Matrix.diagonal (fun a : Fin dA => if a.val < dB then s a.val * star (s a.val) else 0) := by
-    ext a a'
-    rw [Matrix.mul_apply, Matrix.diagonal_apply]
-    simp only [planted, Matrix.conjTranspose_apply]
-    by_cases haa : a = a'
-    · subst haa
-      simp only [if_true]
-      by_cases hlt : a.val < dB
-      · rw [Finset.sum_eq_single (⟨a.val, hlt⟩ : Fin dB)]
-        · simp [hlt]
-        · intro b _ hb
-          have : a.val ≠ b.val := fun e => hb (Fin.ext e.symm)
-          simp [this]
-        · intro h; exact absurd (Finset.mem_univ _) h
-      · rw [if_neg hlt]
-        apply Finset.sum_eq_zero
-        intro b _
-        have : a.val ≠ b.val := fun e => hlt (e ▸ b.isLt)
-        simp [this]
-    · rw [if_neg haa]
-      apply Finset.sum_eq_zero
-      intro b _
-      by_cases h1 : a.val = b.val
-      · have : a'.val ≠ b.val := fun e => haa (Fin.ext (h1.trans e.symm))
-        simp [this]
-      · simp [h1]
-  rw [h, Matrix.rank_diagonal]
+  rw [← Matrix.rank_self_mul_conjTranspose, planted_mul_ct, Matrix.rank_diagonal]
   apply Fintype.card_congr
   apply Equiv.subtypeEquivRight
   intro a
@@ -246,5 +218,157 @@ theorem pT_local_unitary {R : Type} [CommRing R] [StarRing R] {m n : Type} [Fint
   apply Finset.sum_congr rfl; intro d _
   apply Finset.sum_congr rfl; intro d' _
   ring
+
+/-- **Gram identity of a partially transposed pure state.**  For every bipartite vector with amplitude matrix `A` (rectangular,
+    any dimensions): `(ρ^{T_B})ᴴ ρ^{T_B} = (A Aᴴ) ⊗ (Aᴴ A)`; so the singular values of `ρ^{T_B}` are the products `s_i s_j` of the
+    Schmidt coefficients. -/
+theorem pT_pure_gram_eq {m n : Type} [Fintype m] [Fintype n] (A : Matrix m n ℂ) :
+    (pT (pureOfAmp A))ᴴ * pT (pureOfAmp A) = (A * Aᴴ) ⊗ₖ (Aᴴ * A) :=
+  pT_pure_gram A
+
+/-- **Trace norm of the partial transpose of any pure state.**  If `P₁`, `P₂` are positive semidefinite square roots of `A Aᴴ`
+    and `Aᴴ A`, then `‖ρ^{T_B}‖₁ = tr P₁ · tr P₂` (= `(Σ_i s_i)²`, the square of the nuclear norm of `A`). -/
+theorem traceNorm_pT_pure {m n : Type} [Fintype m] [Fintype n] [DecidableEq m] [DecidableEq n] (A : Matrix m n ℂ)
+    (P₁ : Matrix m m ℂ) (P₂ : Matrix n n ℂ) (h₁ : P₁.PosSemidef) (h₂ : P₂.PosSemidef)
+    (e₁ : P₁ * P₁ = A * Aᴴ) (e₂ : P₂ * P₂ = Aᴴ * A) :
+    traceNorm (pT (pureOfAmp A)) = P₁.trace * P₂.trace := by
+  unfold traceNorm
+  have hsq : (P₁ ⊗ₖ P₂) * (P₁ ⊗ₖ P₂) = (pT (pureOfAmp A))ᴴ * pT (pureOfAmp A) := by
+    rw [pT_pure_gram, ← Matrix.mul_kronecker_mul, e₁, e₂]
+  rw [CFC.sqrt_unique hsq (h₁.kronecker h₂).nonneg, Matrix.trace_kronecker]
+
+/-- **Negativity closed form, all local dimensions, all local unitaries.**  For `ψ = (U ⊗ V) Σ_i s_i |i i⟩` with `s_i ≥ 0` and unitary
+    `U` (`dA × dA`), `V` (`dB × dB`), `dA ≠ dB` allowed: `‖(|ψ⟩⟨ψ|)^{T_B}‖₁ = (Σ_{i < min(dA,dB)} s_i)²`.  Hence negativity
+    `= ((Σ s_i)² − 1)/2` and log-negativity `= log₂ (Σ s_i)²`, the values the harness compares `negativity` / `log_negativity` with. -/
+theorem negativity_planted (dA dB : Nat) (s : Nat → ℝ) (hs : ∀ i, 0 ≤ s i)
+    (U : Matrix (Fin dA) (Fin dA) ℂ) (V : Matrix (Fin dB) (Fin dB) ℂ) (hU : Uᴴ * U = 1) (hV : Vᴴ * V = 1) :
+    traceNorm (pT (pureOfAmp (U * planted dA dB (fun i => (s i : ℂ)) * Vᵀ)))
+      = (((∑ i ∈ Finset.range (min dA dB), s i) ^ 2 : ℝ) : ℂ) := by
+  set D := planted dA dB (fun i => (s i : ℂ)) with hD
+  obtain ⟨W, hW⟩ : ∃ W : Matrix (Fin dB) (Fin dB) ℂ, W = Vᵀᴴ := ⟨_, rfl⟩
+  have hWW : Wᴴ * W = 1 := by
+    rw [hW, Matrix.conjTranspose_conjTranspose]
+    have : (Vᴴ * V)ᵀ = 1 := by rw [hV, Matrix.transpose_one]
+    rw [Matrix.transpose_mul] at this
+    rw [← this]
+    rfl
+  have hA : U * D * Vᵀ = U * D * Wᴴ := by rw [hW, Matrix.conjTranspose_conjTranspose]
+  set d₁ : Fin dA → ℝ := fun a => if a.val < dB then s a.val else 0 with hd₁
+  set d₂ : Fin dB → ℝ := fun b => if b.val < dA then s b.val else 0 with hd₂
+  have hd₁n : ∀ i, 0 ≤ d₁ i := fun i => by simp only [hd₁]; split <;> simp [hs]
+  have hd₂n : ∀ i, 0 ≤ d₂ i := fun i => by simp only [hd₂]; split <;> simp [hs]
+  obtain ⟨p1, q1, t1⟩ := unitary_diag_sqrt U hU d₁ hd₁n
+  obtain ⟨p2, q2, t2⟩ := unitary_diag_sqrt W hWW d₂ hd₂n
+  have e1 : (U * D * Wᴴ) * (U * D * Wᴴ)ᴴ = U * Matrix.diagonal (fun i => ((d₁ i : ℂ) * (d₁ i : ℂ))) * Uᴴ := by
+    rw [Matrix.conjTranspose_mul, Matrix.conjTranspose_mul, Matrix.conjTranspose_conjTranspose]
+    calc U * D * Wᴴ * (W * (Dᴴ * Uᴴ)) = U * D * (Wᴴ * W) * Dᴴ * Uᴴ := by simp only [Matrix.mul_assoc]
+      _ = U * (D * Dᴴ) * Uᴴ := by rw [hWW]; simp only [Matrix.mul_one, Matrix.mul_assoc]
+      _ = _ := by
+        rw [hD, planted_mul_ct]
+        have hf : (fun a : Fin dA => if a.val < dB then ((s a.val : ℝ) : ℂ) * star ((s a.val : ℝ) : ℂ) else 0)
+            = fun i => ((d₁ i : ℂ) * (d₁ i : ℂ)) := by
+          funext a; by_cases h : a.val < dB <;> simp [hd₁, h]
+        rw [hf]
+  have e2 : (U * D * Wᴴ)ᴴ * (U * D * Wᴴ) = W * Matrix.diagonal (fun i => ((d₂ i : ℂ) * (d₂ i : ℂ))) * Wᴴ := by
+    rw [Matrix.conjTranspose_mul, Matrix.conjTranspose_mul, Matrix.conjTranspose_conjTranspose]
+    calc W * (Dᴴ * Uᴴ) * (U * D * Wᴴ) = W * Dᴴ * (Uᴴ * U) * D * Wᴴ := by simp only [Matrix.mul_assoc]
+      _ = W * (Dᴴ * D) * Wᴴ := by rw [hU]; simp only [Matrix.mul_one, Matrix.mul_assoc]
+      _ = _ := by
+        rw [hD, planted_ct_mul]
+        have hf : (fun b : Fin dB => if b.val < dA then star ((s b.val : ℝ) : ℂ) * ((s b.val : ℝ) : ℂ) else 0)
+            = fun i => ((d₂ i : ℂ) * (d₂ i : ℂ)) := by
+          funext b; by_cases h : b.val < dA <;> simp [hd₂, h]
+        rw [hf]
+  rw [hA, traceNorm_pT_pure _ _ _ p1 p2 (q1.trans e1.symm) (q2.trans e2.symm), t1, t2]
+  have s1 := sum_fin_lt dA dB s
+  have s2 := sum_fin_lt dB dA s
+  rw [Nat.min_comm] at s2
+  simp only [hd₁, hd₂]
+  rw [s1, s2, sq]
+  push_cast
+  rfl
+
+/-! ## verified rank certificates (exact oracle of the Schmidt rank used by the harness) -/
+
+/-- **Rank certificate soundness.**  If the executable checker accepts `(B, C, L, R)` for the exact matrix `A` — i.e. `A = B·C` with inner
+    size `r` and `L·A·R = 1_r`, both verified by exact arithmetic over `ℚ[i]` — then the rank of `A` (as a complex matrix) is `r`. -/
+theorem rankCert_sound {n m r : Nat} (A : EMat n m) (B : EMat n r) (C : EMat r m) (L : EMat r n) (R : EMat m r)
+    (h : rankCert A B C L R = true) : A.toM.rank = r := by
+  unfold rankCert at h
+  rw [Bool.and_eq_true] at h
+  have h1 := EMat.beq_sound _ _ h.1
+  have h2 := EMat.beq_sound _ _ h.2
+  rw [EMat.toM_mul] at h1
+  rw [EMat.toM_mul, EMat.toM_mul, EMat.toM_one] at h2
+  apply le_antisymm
+  · rw [h1]
+    exact (Matrix.rank_mul_le_left _ _).trans (Matrix.rank_le_width _)
+  · have : (1 : Matrix (Fin r) (Fin r) ℂ).rank = r := by rw [Matrix.rank_one, Fintype.card_fin]
+    rw [← this, ← h2]
+    exact (Matrix.rank_mul_le_left _ _).trans (Matrix.rank_mul_le_right _ _)
+
+/-! ## S(k) vector norm: the sum of the k largest squared Schmidt coefficients -/
+
+/-- for `k ≥` the number of coefficients the value is the full sum (the `k >= min(dim)` shortcut of `sk_vector_norm`) -/
+theorem skVecNormSq_full (p : List Rat) (k : Nat) (hk : p.length ≤ k) : skVecNormSq p k = sumQ p := by
+  unfold skVecNormSq
+  rw [List.take_of_length_le (by rw [List.length_mergeSort]; exact hk), sumQ_eq_sum, sumQ_eq_sum]
+  exact (List.mergeSort_perm p _).sum_eq
+
+/-- monotone in `k` (squared coefficients are non-negative) -/
+theorem skVecNormSq_mono (p : List Rat) (hp : ∀ x ∈ p, 0 ≤ x) (k : Nat) : skVecNormSq p k ≤ skVecNormSq p (k + 1) := by
+  unfold skVecNormSq
+  rw [sumQ_eq_sum, sumQ_eq_sum]
+  set l := p.mergeSort fun a b => decide (b ≤ a) with hl
+  by_cases hk : k < l.length
+  · rw [List.sum_take_succ l k hk]
+    have : 0 ≤ l[k] := hp _ ((List.mergeSort_perm p _).mem_iff.mp (List.getElem_mem hk))
+    linarith
+  · rw [List.take_of_length_le (by omega), List.take_of_length_le (by omega)]
+
+/-- **`skVecNormSq p k` is the maximum over sub-multisets of at most `k` entries**: every such sub-multiset has a sum `≤` the value … -/
+theorem skVecNormSq_max (p : List Rat) (hp : ∀ x ∈ p, 0 ≤ x) (k : Nat) (t : List Rat) (ht : t.Subperm p) (hk : t.length ≤ k) :
+    t.sum ≤ skVecNormSq p k := by
+  unfold skVecNormSq
+  rw [sumQ_eq_sum]
+  set l := p.mergeSort fun a b => decide (b ≤ a) with hl
+  have hperm : l.Perm p := List.mergeSort_perm p _
+  have hsorted : l.Pairwise (fun a b => b ≤ a) := by
+    have := List.pairwise_mergeSort (le := fun a b : Rat => decide (b ≤ a))
+      (fun a b c hab hbc => by simp only [decide_eq_true_eq] at *; exact le_trans hbc hab)
+      (fun a b => by simp only [Bool.or_eq_true, decide_eq_true_eq]; exact le_total b a) p
+    simpa using this
+  obtain ⟨t', ht'p, ht's⟩ := ht.trans hperm.symm.subperm
+  rw [← ht'p.sum_eq]
+  exact sublist_sum_le_take l hsorted (fun x hx => hp x (hperm.mem_iff.mp hx)) k t' ht's (by rw [ht'p.length_eq]; exact hk)
+
+/-- … and the value is attained by one of them. -/
+theorem skVecNormSq_attained (p : List Rat) (k : Nat) :
+    ∃ t : List Rat, t.Subperm p ∧ t.length ≤ k ∧ t.sum = skVecNormSq p k := by
+  refine ⟨(p.mergeSort fun a b => decide (b ≤ a)).take k, ?_, ?_, ?_⟩
+  · exact (List.take_sublist k _).subperm.trans (List.mergeSort_perm p _).subperm
+  · rw [List.length_take]; exact Nat.min_le_left _ _
+  · unfold skVecNormSq; rw [sumQ_eq_sum]
+
+/-! ## two-qubit concurrence of pure states: `2 |det A|` -/
+
+/-- two-qubit pure-state concurrence is `2|det A|`; it is invariant under local unitaries -/
+theorem concurrence_pure_local_invariant (U V A : Matrix (Fin 2) (Fin 2) ℂ) (hU : Uᴴ * U = 1) (hV : Vᴴ * V = 1) :
+    2 * ‖(U * A * Vᵀ).det‖ = 2 * ‖A.det‖ := by
+  rw [Matrix.det_mul, Matrix.det_mul, Matrix.det_transpose, norm_mul, norm_mul, norm_det_of_unitary U hU,
+    norm_det_of_unitary V hV, one_mul, mul_one]
+
+theorem concurrence_planted (s : Nat → ℂ) : 2 * ‖(planted 2 2 s).det‖ = 2 * ‖s 0‖ * ‖s 1‖ := by
+  rw [Matrix.det_fin_two]
+  simp [planted, mul_assoc]
+
+/-- the spin-flip overlap `ψᵀ (σ_y ⊗ σ_y) ψ` of a two-qubit vector is `−2 det A` -/
+theorem spinFlip_eq_det (A : Matrix (Fin 2) (Fin 2) ℂ) :
+    (∑ p : Fin 2 × Fin 2, ∑ q : Fin 2 × Fin 2,
+      A p.1 p.2 * (Matrix.kroneckerMap (· * ·) !![0, -Complex.I; Complex.I, 0] !![0, -Complex.I; Complex.I, 0]) p q * A q.1 q.2)
+      = -2 * A.det := by
+  rw [Matrix.det_fin_two]
+  simp [Fintype.sum_prod_type, Fin.sum_univ_two, Matrix.kroneckerMap_apply]
+  ring_nf
 
 end Toq.C14
